@@ -471,6 +471,8 @@ def run(pid, tier):
     sys.setrecursionlimit(2500)
     try:
         body()
+        if pid == "C06":
+            fragment_part(ck, random.Random(ck.seed * 31 + 5), hist, tier)
     finally:
         J.uninstall_ordered_sets()
     ck.sample({"schema": docs[0]})
@@ -491,8 +493,133 @@ def run(pid, tier):
                                      "leaves no $ref where _to_dnf looks (RF), _to_dnf yields combinator- and reference-free alternatives, _merge keeps them, the definitions "
                                      "table only grows; tie: stream N compares the model's normal form with the implementation's; termination on guarded recursion is observed "
                                      "(RecursionError / alarm) and by the independent normal-form walker + check_normalized on the implementation's output")
-    return ck.finish(level="other", trusted=["model of normalize.py / json_pointer.py: coq/Normalize.v (tied by stream N)"],
-                     explanation="correspondence of the executable Coq model of normalize() with the implementation plus validator oracle over an instance grid; theorems in progress")
+    return ck.finish(level="proof", trusted=["model of normalize.py / json_pointer.py: coq/Normalize.v (tied by stream N)",
+                                             "specification of acceptance for the fragment: sem / semb (coq/JsonSemDnf.v, coq/JsonFragB.v), tied to the reference validator by stream NS",
+                                             "outside the propositional-scalar fragment the statement is decided by the oracle and the correspondence, not by a theorem"],
+                     explanation="C06_fragment / C06_fragment_default / C06_fragment_exec: for every schema built from type, enum, the numeric / length / item-count bounds and the negated enum "
+                                 "with allOf, anyOf and not to any depth, whenever the model of normalize() returns (full merge, no duplicate detection) the any-of list it returns is satisfied by "
+                                 "exactly the instances the schema accepts; layers C06_merge_alternatives, C06_invert_alternative, C06_merge_full, C06_invert, C06_to_dnf_fragment; the "
+                                 "specification is executable (C06_spec_executable) and compared with jsonschema on generated documents x instance grids (stream NS), as are the model's and the "
+                                 "implementation's normal forms. Partial: properties, items, prefixItems, required, $ref, oneOf, if/then/else, const, multipleOf, 'integer', dependentRequired and the "
+                                 "reduced-merge option are covered by keyword-level laws, the model/implementation correspondence (stream N) and the validator oracle over instance grids only")
+
+
+# ---------------------------------------------------------------------------------------------
+# The propositional-scalar fragment (theorem C06_fragment): documents generated inside it, the model's membership test,
+# the executable specification semb against the reference validator, the model's normal form and the implementation's
+# normal form on the same instances.
+FRAG_TYPES = ["number", "boolean", "string", "null", "object", "array"]
+
+
+def gen_fragment(rng, depth):
+    if depth <= 1 or rng.random() < 0.08:
+        if rng.random() < 0.25:
+            return rng.random() < 0.6
+    d = {}
+    ks = ["type", "enum", "minimum", "maximum", "minLength", "maxLength", "minItems", "maxItems"]
+    if rng.random() < 0.15:
+        ks += ["exclusiveMinimum", "exclusiveMaximum"]       # no merger for these: two of them in a conjunction are refused
+    rng.shuffle(ks)
+    for k in ks[:rng.choice([0, 1, 1, 2, 2, 3])]:
+        if k == "type":
+            ts = rng.sample(FRAG_TYPES, rng.choice([1, 1, 2, 3]))
+            d[k] = ts[0] if len(ts) == 1 and rng.random() < 0.5 else ts
+        elif k == "enum":
+            pool = [0, 1, 2, 3, 5, -1, 7, True, False, None, "", "a", "ab", "abc", "xyz"]
+            d[k] = rng.sample(pool, rng.choice([0, 1, 2, 3, 4]))
+        elif k in ("minLength", "maxLength", "minItems", "maxItems"):
+            d[k] = rng.choice([0, 1, 2, 3, 4])
+        else:
+            d[k] = rng.choice([-2, 0, 1, 3, 5, 7, 10])
+    if depth > 1:
+        for k in ("allOf", "anyOf"):
+            if rng.random() < 0.45:
+                d[k] = [gen_fragment(rng, depth - 1) for _ in range(rng.choice([1, 2, 2, 3]))]
+        if rng.random() < 0.45:
+            d["not"] = gen_fragment(rng, depth - 1)
+    return d
+
+
+def frag_instances(d, rng):
+    out = []
+    for x in J.instance_grid(d, rng, limit=60):
+        try:
+            J.enc_json(x)
+        except ValueError:
+            continue
+        out.append(x)
+    return out[:48]
+
+
+def fragment_part(ck, rng, hist, tier):
+    n = 150 if tier == "quick" else 4000
+    docs, seen = [], set()
+    while len(docs) < n:
+        depth = rng.choice([1, 2, 2, 3, 3, 4])
+        d = gen_fragment(rng, depth)
+        if isinstance(d, bool):
+            continue
+        t = json.dumps(d, sort_keys=True)
+        if t in seen or not J.metaschema_ok(d):
+            continue
+        seen.add(t)
+        docs.append((d, depth + 1))
+    lines, meta = [], []
+    for d, depth in docs:
+        xs = frag_instances(d, random.Random(len(lines) + ck.seed))
+        lines.append(" ".join(["NS", str(depth), str(FUEL)] + J.enc_json(d) + [str(len(xs))] + [t for x in xs for t in J.enc_json(x)]))
+        meta.append((d, xs))
+    model = run_driver(lines)
+    fh = {"documents": len(docs), "instances": 0, "in_fragment_by_the_model": 0, "with_not": 0, "with_anyOf_or_allOf": 0,
+          "normalize_raises_library_exception": 0, "accepted_verdicts": 0, "rejected_verdicts": 0}
+    for (d, xs), m in zip(meta, model):
+        txt = json.dumps(d)
+        fh["with_not"] += '"not"' in txt
+        fh["with_anyOf_or_allOf"] += ('"anyOf"' in txt) or ('"allOf"' in txt)
+        parts = dict(p.split("=", 1) for p in m.split("|") if "=" in p)
+        if m.startswith("error=timeout"):
+            fh["model_gave_up"] = fh.get("model_gave_up", 0) + 1
+            continue
+        if parts.get("frag") != "1":
+            ck.violation("fragment-generator", "the model's fragb rejects a generated document of the fragment (or the driver failed: %s)" % m[:80],
+                         {"stream": "NS", "schema": d, "theorem": "C06_spec_executable (membership)"}, found_input=False)
+            continue
+        fh["in_fragment_by_the_model"] += 1
+        ck.cov["traces_validated_against_impl"] += 1
+        want = "".join("1" if J.accepts(d, x) else "0" for x in xs)
+        fh["instances"] += len(xs)
+        fh["accepted_verdicts"] += want.count("1")
+        fh["rejected_verdicts"] += want.count("0")
+        if parts.get("sem") != want:
+            i = next((i for i in range(len(xs)) if i >= len(parts.get("sem", "")) or parts["sem"][i] != want[i]), 0)
+            ck.violation("spec-vs-validator", "the executable specification semb (coq/JsonFragB.v) and the reference validator disagree on instance %r" % (xs[i],),
+                         {"stream": "NS", "schema": d, "instance": xs[i], "model": parts.get("sem"), "validator": want,
+                          "theorem": "C06_spec_executable: the meaning [sem] of the fragment is not Draft 2020-12 on this input"}, found_input=False)
+            continue
+        # the implementation's normal form on the same instances: the property itself
+        nf, err = run_normalize(d, True, False)
+        if err:
+            fh["normalize_raises_library_exception"] += err.startswith("lib:")
+            mnf = parts.get("nf", "")
+            if mnf != err and mnf != "timeout" and err not in ("timeout", "fuel"):
+                ck.cov["disagreements_checked"] += 1
+                if not err.startswith("lib:"):
+                    ck.violation("fragment-normalize-raises", "normalize raises %s on a document of the fragment" % err, {"stream": "NS", "schema": d})
+            continue
+        got = "".join("1" if J.accepts(nf, x) else "0" for x in xs)
+        if got != want:
+            i = next(i for i in range(len(xs)) if got[i] != want[i])
+            ck.violation("acceptance-changed:fragment", "normalize changes the verdict on %r: the schema says %s, its normal form says %s" % (
+                xs[i], want[i] == "1", got[i] == "1"), {"stream": "N", "schema": d, "full_merge": True, "instance": xs[i]})
+            continue
+        mnf = parts.get("nf", "")
+        if mnf == "timeout":
+            fh["model_gave_up"] = fh.get("model_gave_up", 0) + 1
+        elif mnf != "ok:" + want:
+            ck.cov["disagreements_checked"] += 1
+            ck.violation("correspondence-NS", "the model's normal form, evaluated keyword set by keyword set, disagrees with the validator (model %s, validator %s)" % (mnf[:60], want[:60]),
+                         {"stream": "NS", "schema": d, "theorem": "C06_fragment_exec / correspondence stream NS"}, found_input=False)
+    hist["fragment"] = fh
 
 
 def replay(pid, path):
